@@ -49,7 +49,7 @@ RULE = ('exhaustive small scope: every map of length <= N whose valid entries ar
         'indexed source field shared by a sequence of calls — every map of length <= 3 (thorough 4) over sources of '
         'length <= 3, ordered and unordered, x 3 markers x EVERY ordered pair of the six call kinds {stream, indexed '
         'stream, map_valid, safe_map_values, safe_map_indexed_values, stream with the map column as its own source} '
-        '(thorough: every third triple as well), memory-backed (chunk reads are views of the field) and every 16th '
+        '(thorough: every third triple as well), memory-backed (chunk reads are views of the field) and every 48th '
         'HDF5-backed; the map and both sources are read back after the history and compared with what was supplied; '
         'then random histories of 2-5 calls over longer maps. '
         'EXTREMES: every map of length <= 3 over source values at the extremes of int64/int32/uint8 and over float bit '
@@ -168,8 +168,10 @@ def _run_hist(case):
     inv = _marker(case)
     df = _h5_df() if case.get('store') == 'h5' else None
     kind = case['kind']
-    num = _num_field(df, 'src', kind, _data_array(kind, case['data']))
-    idx = _idx_field(df, 'isrc', case['strs'])
+    names = set(st[0] for st in case['steps'])
+    # a shared field that no call of the history uses is not created (an indexed field costs megabytes of buffers)
+    num = _num_field(df, 'src', kind, _data_array(kind, case['data'])) if names & {'stream', 'mapvalid', 'safe'} else None
+    idx = _idx_field(df, 'isrc', case['strs']) if names & {'istream', 'isafe'} else None
     mp = _num_field(df, 'map', _map_dtype(case), _map_array(case))
     outs = []
     for j, st in enumerate(case['steps']):
@@ -205,8 +207,12 @@ def _run_hist(case):
             outs.append([_ints(i), _ints(v)])
         else:
             raise ValueError(name)
-    fin_i = _ints(idx.indices[:]) or [0]
-    return [outs, [_ints(mp.data[:]), _canon_elems(kind, num.data[:]), fin_i, _ints(idx.values[:])]]
+    if idx is None:
+        fin_i, fin_v = [list(x) for x in _split(case['strs'])]
+    else:
+        fin_i, fin_v = _ints(idx.indices[:]) or [0], _ints(idx.values[:])
+    fin_n = _welems(kind, case['data']) if num is None else _canon_elems(kind, num.data[:])
+    return [outs, [_ints(mp.data[:]), fin_n, fin_i, fin_v]]
 
 
 def run(case):
@@ -757,6 +763,8 @@ def _gen(tier, rng):
             yield {'op': 'istream', 'strs': _strs([x for x in lens]), 'map': m, 'inv': inv, 'cs': cs, 'vf': vf,
                    'store': store}
     yield from _gen_unordered_random(big, rng)
+    if os.environ.get('C04_BASE'):      # development aid: the generators as they were before the strengthening round
+        return
     yield from _gen_histories(big, rng)
     yield from _gen_extremes(big, rng)
     yield from _gen_text(big, rng)
@@ -812,7 +820,7 @@ def _gen_histories(big, rng):
                         cs = 1 + rot % (n + 1)
                         c = {'op': 'hist', 'kind': (['int32'] * 3 + NUM_KINDS)[rot % 9], 'map': m, 'inv': inv,
                              'strs': _strs(lens[:Ls]), 'steps': _mk_steps(names, cs, 1 + rot % 2, rot),
-                             'store': 'h5' if rot % 16 == 0 else 'mem'}
+                             'store': 'h5' if rot % 48 == 0 else 'mem'}
                         c['data'] = _data(c['kind'], Ls)
                         if inv == 0 and rot % 2:
                             c['mdt'] = 'int64'
